@@ -907,6 +907,10 @@ func (x *Exec) summarizeClosure(lit *ast.FuncLit, fv Val, st *State) {
 		bvs = append(bvs, BoundVar{name, srt})
 		args = append(args, Val{T: mk(name, srt), Ty: pty})
 	}
+	if fc, ok := x.eng.contracts[cl.name]; ok && fc.Pure && !fc.Inline && fc.HasAssigns {
+		x.summarizeByContract(cl, fc, sig, bvs, args, lit, st)
+		return
+	}
 	res := x.inlineClosure(cl, args, lit, s2)
 	if len(x.obls) != nob {
 		// the body has proof obligations of its own: do not summarise
@@ -931,6 +935,57 @@ func (x *Exec) summarizeClosure(lit *ast.FuncLit, fv Val, st *State) {
 		return
 	}
 	st.assume(Forall(bvs, Eq(app.T, res[0].T), app.T))
+}
+
+// summarizeByContract: a literal with a deterministic contract of its own
+// (verified separately as Func#litN) is passed as an argument. Contracts of
+// the callee speak about it as the function det_<lit>(args); that function is
+// described here by the literal's contract: for all arguments, requires ==>
+// the state-independent part of ensures (clauses that mention a heap cell,
+// allocation counter or other value created by applying the contract are
+// dropped, so no fact about a particular post-state leaks under the
+// quantifier). The literal's precondition is evaluated in the current state
+// over the captured variables, as at the literal's creation.
+func (x *Exec) summarizeByContract(cl *closure, fc *FuncContract, sig *types.Signature, bvs []BoundVar, args []Val, lit *ast.FuncLit, st *State) {
+	s2 := st.clone()
+	nob := len(x.obls)
+	nsym := len(x.sym.order)
+	extra := map[string]Val{}
+	for i := 0; i < sig.Params().Len(); i++ {
+		extra[sig.Params().At(i).Name()] = args[i]
+	}
+	env := x.invEnv(st, lit.Pos(), extra)
+	var pre []*Term
+	for _, r := range fc.Requires {
+		pre = append(pre, env.evalBool(r.E))
+	}
+	res := x.inlineClosure(cl, args, lit, s2)
+	x.obls = x.obls[:nob]
+	if len(res) != 1 {
+		return
+	}
+	fresh := map[string]bool{}
+	for _, n := range x.sym.order[nsym:] {
+		if strings.HasPrefix(x.sym.decls[n], "(declare-const") {
+			fresh[n] = true
+		}
+	}
+	var post []*Term
+	for _, t := range s2.pc[len(st.pc):] {
+		bad := false
+		t.walk(func(u *Term) {
+			if len(u.Args) == 0 && fresh[u.Op] {
+				bad = true
+			}
+		})
+		if !bad {
+			post = append(post, t)
+		}
+	}
+	if len(post) == 0 {
+		return
+	}
+	st.assume(Forall(bvs, Implies(And(pre...), And(post...)), res[0].T))
 }
 
 func (x *Exec) funcValue(o *types.Func, n ast.Node) Val {
